@@ -89,6 +89,7 @@ type pathCtx struct {
 	gateTerms     []string
 	schedFill     func()
 	opaqueItoa    bool
+	pools         map[*value][]value // sync.Pool contents
 	hostTerms     []string // host terms whose host_name matters for rendering real URLs
 }
 
